@@ -37,6 +37,14 @@ type sworld struct {
 	atCases []atCase
 	// distinctCount: evaluate numValue on the distinct values (set while judging the corpus-less mode)
 	distinctCount bool
+	// per-(permanode, attribute) claim index for valuesList, and its self-check against hw
+	byPNAttr           map[pnAttr][]hw.ClaimInfo
+	indexedClaims      int
+	valueCalls         int
+	memoMod, memoAny   map[blob.Ref]timeOK
+	memoClaims         int
+	memoFiles          int
+	valueModelMismatch string
 	// chunkOf: file schema blob -> its single content chunk (a file is indexed only once both arrived)
 	chunkOf map[blob.Ref]blob.Ref
 	features map[string]int // what the generator actually produced (evidence)
@@ -370,17 +378,92 @@ func genSearchWorld(rng *rand.Rand, label string, nPN int, tiedTimes bool, exoti
 // ---- facts derived from the generated claims (the documented semantics)
 
 func (w *sworld) values(pn blob.Ref, attr string, at time.Time) []string {
-	return w.w.Values(pn, attr, at, 1, true)
+	return hw.Canon(w.valuesList(pn, attr, at))
+}
+
+type pnAttr struct {
+	pn   blob.Ref
+	attr string
 }
 
 // valuesList: the uncanonicalised value list (repeated add-attribute claims of one value count
-// twice): what numValue counts.
+// twice): what numValue counts.  Same fold as hw.World.ValuesList(pn, attr, at, owner, true) —
+// the worlds of this package contain no deleted claims — over a per-(permanode, attribute) index
+// of the claims (the hw function scans every claim of the world on every call); the two are
+// compared on a sample of calls (selfCheckValues).
 func (w *sworld) valuesList(pn blob.Ref, attr string, at time.Time) []string {
-	return w.w.ValuesList(pn, attr, at, 1, true)
+	if w.byPNAttr == nil || w.indexedClaims != len(w.claims) {
+		w.byPNAttr = map[pnAttr][]hw.ClaimInfo{}
+		for _, c := range w.claims {
+			k := pnAttr{c.PN, c.Attr}
+			w.byPNAttr[k] = append(w.byPNAttr[k], c)
+		}
+		for k := range w.byPNAttr {
+			cs := w.byPNAttr[k]
+			sort.SliceStable(cs, func(i, j int) bool { return cs[i].Date.Before(cs[j].Date) })
+		}
+		w.indexedClaims = len(w.claims)
+	}
+	var v []string
+	for _, c := range w.byPNAttr[pnAttr{pn, attr}] {
+		if !at.IsZero() && c.Date.After(at) {
+			continue
+		}
+		switch c.Kind {
+		case hw.Set:
+			v = []string{c.Value}
+		case hw.Add:
+			v = append(v, c.Value)
+		case hw.Del:
+			if c.Value == "" {
+				v = nil
+			} else {
+				var nv []string
+				for _, x := range v {
+					if x != c.Value {
+						nv = append(nv, x)
+					}
+				}
+				v = nv
+			}
+		}
+	}
+	w.valueCalls++
+	if w.valueCalls%997 == 1 {
+		ref := w.w.ValuesList(pn, attr, at, 1, true)
+		if fmt.Sprint(ref) != fmt.Sprint(v) {
+			w.valueModelMismatch = fmt.Sprintf("valuesList(%v, %q, %v): fast fold %q, hw.World.ValuesList %q", pn, attr, at, v, ref)
+		}
+	}
+	return v
 }
 
 // modtime: latest date among the permanode's (non-deleted) attribute claims.
 func (w *sworld) modtime(pn blob.Ref) (time.Time, bool) {
+	w.memoCheck()
+	if m, ok := w.memoMod[pn]; ok {
+		return m.t, m.ok
+	}
+	t, ok := w.modtime1(pn)
+	w.memoMod[pn] = timeOK{t, ok}
+	return t, ok
+}
+
+type timeOK struct {
+	t  time.Time
+	ok bool
+}
+
+// memoCheck drops the memoised times when the world's facts changed (claims added during
+// generation, MIME/mtime facts never change afterwards).
+func (w *sworld) memoCheck() {
+	if w.memoMod == nil || w.memoClaims != len(w.claims) || w.memoFiles != len(w.files) {
+		w.memoMod, w.memoAny = map[blob.Ref]timeOK{}, map[blob.Ref]timeOK{}
+		w.memoClaims, w.memoFiles = len(w.claims), len(w.files)
+	}
+}
+
+func (w *sworld) modtime1(pn blob.Ref) (time.Time, bool) {
 	var t time.Time
 	for _, c := range w.claims {
 		if c.PN == pn && c.Date.After(t) {
@@ -393,6 +476,16 @@ func (w *sworld) modtime(pn blob.Ref) (time.Time, bool) {
 // anyTime: time of the camliContent file if it has one, else the date of the claim that set the
 // current camliContent, else the modtime.  (Worlds use none of the explicit date attributes.)
 func (w *sworld) anyTime(pn blob.Ref) (time.Time, bool) {
+	w.memoCheck()
+	if m, ok := w.memoAny[pn]; ok {
+		return m.t, m.ok
+	}
+	t, ok := w.anyTime1(pn)
+	w.memoAny[pn] = timeOK{t, ok}
+	return t, ok
+}
+
+func (w *sworld) anyTime1(pn blob.Ref) (time.Time, bool) {
 	var cc blob.Ref
 	var ccTime time.Time
 	var cs []hw.ClaimInfo
